@@ -17,7 +17,7 @@ def run(ctx):
                 ".permids are permutations of each other). E-LIN: the importer releases every edge on its error paths.")
     edddmp.run(ctx, F)
     nfn, _ = eunits.run(ctx, F, crates=("oxidd_dump",))
-    ctx.floor("E-UNITS", "oxidd-dump bodies analysed", nfn, 80)
+    ctx.floor("E-UNITS", "oxidd-dump bodies analysed", nfn, 60)
     st = elin.run(ctx, F, crates=("oxidd_dump",), skip_guard_table=True)
-    ctx.floor("E-LIN", "oxidd-dump bodies analysed", st["bodies"], 150)
+    ctx.floor("E-LIN", "oxidd-dump bodies analysed", st["bodies"], 100)
     ctx.not_decided = "round-trip equality of diagrams, totality on malformed input (value reasoning about indices and counts)"
